@@ -15,7 +15,7 @@ import (
 func init() { register("C19", true, checkC19) }
 
 func checkC19(p *Prog, r *Report) {
-	r.Explain("SIZEG: in each NewPHash* the pool Get is dominated by branch conditions implying img != nil, Dx == N and Dy == N with N*N the pool's slice length. BITS: the bit-assembly loop sets bit (W-1)-(idx mod W) of word idx div W (MSB first, row-major) and the DCT flatteners copy row j, column i of the top-left KxK block to K*j+i. ORIGIN: every gray converter addresses the image in image coordinates (loop index + Bounds().Min) while the destination stays 0-based. DISPATCH: each fast path of the converter dispatchers is handed the type-asserted image itself, never a part of it (an embedded YCbCr of an NYCbCrA). HAMMING: Distance is OnesCount64 of the XOR of corresponding words, each word once. The numerical clauses (median threshold, agreement of the two implementations within rounding) are run-time arithmetic and are not decided.")
+	r.Explain("SIZEG: in each NewPHash* the pool Get is dominated by branch conditions implying img != nil, Dx == N and Dy == N with N*N the pool's slice length. BITS: the bit-assembly loop sets bit (W-1)-(idx mod W) of word idx div W (MSB first, row-major) and the DCT flatteners copy row j, column i of the top-left KxK block to K*j+i. ORIGIN: every gray converter addresses the image in image coordinates (loop index + Bounds().Min) while the destination stays 0-based. DISPATCH: each fast path of the converter dispatchers is handed the type-asserted image itself, never a part of it (an embedded YCbCr of an NYCbCrA). HAMMING: Distance is OnesCount64 of the XOR of corresponding words, each word once. The numerical clauses (median threshold, agreement of the two implementations within rounding) are run-time arithmetic and are not decided. ROWPASS: each portable DCT2DHash64/256 runs its 1-D kernel on input[i*N : i*N+N] for i = 0..N-1 in a unit-step loop with a constant bound, on every iteration, before every return (a delegation of the whole buffer to the assembly kernel excepted) — no row reaches the column pass untransformed. LUMA: the per-pixel luminance helpers of the two families (transforms.pixel2Gray, transforms32.pixelToGray) are each one straight-line expression of r, g, b that never consults alpha, and the two expressions are identical up to the final float32 conversion.")
 	r.Trusted("image.Image implementations honour Bounds()", "math/bits.OnesCount64")
 	ruleSizeG(p, r)
 	ruleHamming(p, r)
@@ -185,9 +185,111 @@ func rectCoord(v ssa.Value, img ssa.Value) (string, bool) {
 }
 
 func poolSliceLen(p *Prog, pool *ssa.Global) (int64, bool) {
-	// find the initialiser: Store to FieldAddr(pool, New) of a function whose body has MakeSlice with const len
+	// find the initialiser: Store to FieldAddr(pool, New) of a function whose body has MakeSlice with const len;
+	// a constructor built by a helper (`New: allocator(n)`) is followed through the closure binding to the
+	// constant argument of that helper call
 	var n int64
 	found := false
+	scan := func(fn *ssa.Function, subst map[ssa.Value]ssa.Value) {
+		resolve := func(v ssa.Value) (int64, bool) {
+			for i := 0; i < 4; i++ {
+				if k, ok := constInt(v); ok {
+					return k, true
+				}
+				if cv, ok := v.(*ssa.Convert); ok {
+					v = cv.X
+					continue
+				}
+				if u, ok := v.(*ssa.UnOp); ok && u.Op == token.MUL {
+					if w, ok := subst[u.X]; ok {
+						v = w
+						continue
+					}
+				}
+				w, ok := subst[v]
+				if !ok {
+					break
+				}
+				v = w
+			}
+			return 0, false
+		}
+		eachInstr(fn, func(_ *ssa.BasicBlock, _ int, in ssa.Instruction) {
+			if ms, ok := in.(*ssa.MakeSlice); ok {
+				if k, ok := resolve(ms.Len); ok {
+					n, found = k, true
+				}
+			}
+			// make with a constant size is lowered to new [N]T + slice[:N]
+			if sl, ok := in.(*ssa.Slice); ok && sl.High != nil {
+				if _, isAlloc := sl.X.(*ssa.Alloc); isAlloc {
+					if k, ok := resolve(sl.High); ok {
+						n, found = k, true
+					}
+				}
+			}
+		})
+	}
+	var fromVal func(v ssa.Value, subst map[ssa.Value]ssa.Value, depth int)
+	fromVal = func(v ssa.Value, subst map[ssa.Value]ssa.Value, depth int) {
+		if depth > 3 {
+			return
+		}
+		switch x := v.(type) {
+		case *ssa.Function:
+			scan(x, subst)
+		case *ssa.MakeClosure:
+			fn, _ := x.Fn.(*ssa.Function)
+			if fn == nil {
+				return
+			}
+			s2 := map[ssa.Value]ssa.Value{}
+			for k, w := range subst {
+				s2[k] = w
+			}
+			for i, bnd := range x.Bindings {
+				if i >= len(fn.FreeVars) {
+					break
+				}
+				// a binding is the address of the captured variable: the stored value is what the closure reads
+				var val ssa.Value
+				if al, ok := bnd.(*ssa.Alloc); ok {
+					cnt := 0
+					for _, rf := range refs(al) {
+						if st, ok := rf.(*ssa.Store); ok && st.Addr == ssa.Value(al) {
+							val = st.Val
+							cnt++
+						}
+					}
+					if cnt != 1 {
+						val = nil
+					}
+				} else {
+					val = bnd
+				}
+				if val != nil {
+					s2[fn.FreeVars[i]] = val
+				}
+			}
+			scan(fn, s2)
+		case *ssa.Call:
+			sc := x.Call.StaticCallee()
+			if sc == nil {
+				return
+			}
+			s2 := map[ssa.Value]ssa.Value{}
+			for i, a := range x.Call.Args {
+				if i < len(sc.Params) {
+					s2[sc.Params[i]] = a
+				}
+			}
+			eachInstr(sc, func(_ *ssa.BasicBlock, _ int, in ssa.Instruction) {
+				if rt, ok := in.(*ssa.Return); ok && len(rt.Results) == 1 {
+					fromVal(rt.Results[0], s2, depth+1)
+				}
+			})
+		}
+	}
 	for _, f := range p.AllLibFns() {
 		if !isInitFn(f) {
 			continue
@@ -201,31 +303,7 @@ func poolSliceLen(p *Prog, pool *ssa.Global) (int64, bool) {
 			if !ok || fa.X != ssa.Value(pool) {
 				return
 			}
-			var fn *ssa.Function
-			switch v := st.Val.(type) {
-			case *ssa.Function:
-				fn = v
-			case *ssa.MakeClosure:
-				fn, _ = v.Fn.(*ssa.Function)
-			}
-			if fn == nil {
-				return
-			}
-			eachInstr(fn, func(_ *ssa.BasicBlock, _ int, in ssa.Instruction) {
-				if ms, ok := in.(*ssa.MakeSlice); ok {
-					if k, ok := constInt(ms.Len); ok {
-						n, found = k, true
-					}
-				}
-				// make with a constant size is lowered to new [N]T + slice[:N]
-				if sl, ok := in.(*ssa.Slice); ok && sl.High != nil {
-					if _, isAlloc := sl.X.(*ssa.Alloc); isAlloc {
-						if k, ok := constInt(sl.High); ok {
-							n, found = k, true
-						}
-					}
-				}
-			})
+			fromVal(st.Val, map[ssa.Value]ssa.Value{}, 0)
 		})
 	}
 	return n, found
@@ -730,7 +808,11 @@ func ruleBits(p *Prog, r *Report) {
 			continue
 		}
 		checkFlattener(p, r, "BITS", f, key, sp.K, sp.N)
+		checkRowPass(p, r, "ROWPASS", f, sp.rel+"."+sp.name+" | row pass", sp.N)
 	}
+	r.Floor("ROWPASS", 4)
+	ruleLuma(p, r)
+	r.Floor("LUMA", 1)
 }
 
 func isFloat(t types.Type) bool {
@@ -1580,5 +1662,215 @@ func ruleConvDispatch(p *Prog, r *Report) {
 				}
 			}
 		})
+	}
+}
+
+// checkRowPass: the separable 2-D transform first runs the 1-D kernel over every one of the N rows: a counted loop
+// i = 0 .. N-1 (step 1, constant bound) that, on every iteration, calls a function on the window
+// input[i*N : i*N+N] of the pixel buffer, and that loop is finished before the column pass starts (it dominates
+// the function's return). A row pass that stops early, skips rows or is split into bands that do not add up to N
+// leaves raw pixel values in the rows that the column pass then reads as coefficients.
+func checkRowPass(p *Prog, r *Report, rule string, f *ssa.Function, key string, N int64) {
+	at := p.posStr(f.Pos())
+	loops := findLoops(f)
+	found := ""
+	why := "no call on a row window input[i*N : i*N+N] inside a counted loop was found"
+	eachCall(f, func(site ssa.CallInstruction) {
+		if found != "" {
+			return
+		}
+		c := site.Common()
+		if _, isGo := site.(*ssa.Go); isGo {
+			return
+		}
+		for _, a := range c.Args {
+			sl, ok := a.(*ssa.Slice)
+			if !ok {
+				continue
+			}
+			var lo, hi *Aff
+			switch {
+			case sl.Low != nil && sl.High != nil:
+				lo, hi = affineOf(sl.Low, 0), affineOf(sl.High, 0)
+			case sl.High != nil:
+				// buf[i*N:][:N] — the window is cut in two steps
+				in, ok := sl.X.(*ssa.Slice)
+				if !ok || in.Low == nil || in.High != nil {
+					continue
+				}
+				if sl.Low != nil {
+					if k, ok := constInt(sl.Low); !ok || k != 0 {
+						continue
+					}
+				}
+				lo = affineOf(in.Low, 0)
+				hi = lo.addScaled(affineOf(sl.High, 0), 1)
+			default:
+				continue
+			}
+			d := hi.addScaled(lo, -1)
+			if k, ok := d.isConst(); !ok || k != N {
+				continue
+			}
+			if lo.C != 0 || len(lo.Terms) != 1 {
+				continue
+			}
+			var phi *ssa.Phi
+			for k, co := range lo.Terms {
+				if ph, ok := k.(*ssa.Phi); ok && co == N {
+					phi = ph
+				}
+			}
+			if phi == nil {
+				continue
+			}
+			ind, ok := inductionOf(phi)
+			if !ok || ind.Step != 1 {
+				why = "the row counter is not a unit-step loop variable"
+				continue
+			}
+			l0, h0, okr := ind.constRange()
+			if !okr {
+				why = "the row loop has no constant bound (" + p.posStr(instrPos(site)) + "): the rows visited depend on a run-time quantity"
+				continue
+			}
+			if l0 != 0 || h0 != N-1 {
+				why = fmt.Sprintf("the row loop visits rows %d..%d, not 0..%d", l0, h0, N-1)
+				continue
+			}
+			var lp *Loop
+			for _, l := range loops {
+				if l.Head == phi.Block() {
+					lp = l
+				}
+			}
+			if lp == nil {
+				continue
+			}
+			every := true
+			for _, lt := range lp.Latch {
+				if !site.Block().Dominates(lt) {
+					every = false
+				}
+			}
+			if !every {
+				why = "the kernel call is skipped on some iterations of the row loop"
+				continue
+			}
+			// the loop is on every path to the return
+			dom := true
+			eachInstr(f, func(b *ssa.BasicBlock, _ int, in ssa.Instruction) {
+				if rt, ok := in.(*ssa.Return); ok && !lp.Head.Dominates(b) {
+					// handing the whole buffer to another implementation (the assembly kernel) is a delegation
+					if len(rt.Results) == 1 {
+						if _, isCall := rt.Results[0].(*ssa.Call); isCall {
+							return
+						}
+					}
+					dom = false
+				}
+			})
+			if !dom {
+				why = "a return is reachable without the row pass"
+				continue
+			}
+			found = fmt.Sprintf("%s on input[i*%d : i*%d+%d] for i = 0..%d, every iteration, before every return", calleeName(c), N, N, N, N-1)
+		}
+	})
+	if found != "" {
+		r.OK(rule, key, at, found)
+	} else {
+		r.Bad(rule, key, at, why+": rows that are not transformed enter the column pass as raw pixel values")
+	}
+}
+
+// ---- LUMA: the two per-pixel luminance helpers are one formula ---------------------------------------------
+//
+// transforms.pixel2Gray (float64 path) and transforms32.pixelToGray (float32 path) turn the (r, g, b, a) of
+// color.Color.RGBA into the luminance both hash families are defined on. "The primary and the alternative
+// implementation agree" needs them to be the same function of the pixel: each is a single straight-line
+// expression of r, g and b (no branch, alpha not consulted — RGBA is alpha-premultiplied and the hash is defined on
+// what the image reports), and the two expressions are identical up to the final conversion to float32.
+func ruleLuma(p *Prog, r *Report) {
+	a := p.Func("imagehash/transforms", "", "pixel2Gray")
+	b := p.Func("imagehash/transforms32", "", "pixelToGray")
+	key := "imagehash/transforms.pixel2Gray == imagehash/transforms32.pixelToGray"
+	if a == nil || b == nil {
+		r.Undecided("LUMA", key, "-", "unresolved anchor")
+		return
+	}
+	var canon func(f *ssa.Function, v ssa.Value, d int) string
+	canon = func(f *ssa.Function, v ssa.Value, d int) string {
+		if d > 20 {
+			return "…"
+		}
+		switch x := v.(type) {
+		case *ssa.Const:
+			if x.Value != nil {
+				return x.Value.ExactString()
+			}
+			return "nil"
+		case *ssa.Parameter:
+			for i, q := range f.Params {
+				if q == x {
+					return fmt.Sprintf("p%d", i)
+				}
+			}
+		case *ssa.BinOp:
+			return "(" + canon(f, x.X, d+1) + " " + x.Op.String() + " " + canon(f, x.Y, d+1) + ")"
+		case *ssa.Convert:
+			return x.Type().String() + "(" + canon(f, x.X, d+1) + ")"
+		}
+		return "?" + shortVal(v)
+	}
+	form := func(f *ssa.Function) (string, string) {
+		if len(f.Blocks) != 1 {
+			return "", fmt.Sprintf("%s has %d basic blocks: the luminance of a pixel depends on a branch", fnName(f), len(f.Blocks))
+		}
+		if len(f.Params) != 4 {
+			return "", fnName(f) + " does not take (r, g, b, a)"
+		}
+		if refs(f.Params[3]) != nil && len(refs(f.Params[3])) > 0 {
+			n := 0
+			for _, rf := range refs(f.Params[3]) {
+				if _, dbg := rf.(*ssa.DebugRef); !dbg {
+					n++
+				}
+			}
+			if n > 0 {
+				return "", fnName(f) + " consults the alpha channel"
+			}
+		}
+		var ret *ssa.Return
+		for _, in := range f.Blocks[0].Instrs {
+			if rt, ok := in.(*ssa.Return); ok {
+				ret = rt
+			}
+		}
+		if ret == nil || len(ret.Results) != 1 {
+			return "", fnName(f) + " has no single result"
+		}
+		v := ret.Results[0]
+		if cv, ok := v.(*ssa.Convert); ok {
+			if bt, ok := cv.Type().Underlying().(*types.Basic); ok && bt.Kind() == types.Float32 {
+				v = cv.X
+			}
+		}
+		return canon(f, v, 0), ""
+	}
+	fa, wa := form(a)
+	fb, wb := form(b)
+	at := p.posStr(a.Pos())
+	switch {
+	case wa != "":
+		r.Bad("LUMA", key, at, wa+": the float64 and float32 hash families no longer see the same luminance")
+	case wb != "":
+		r.Bad("LUMA", key, p.posStr(b.Pos()), wb+": the float64 and float32 hash families no longer see the same luminance")
+	case strings.Contains(fa, "?") || strings.Contains(fb, "?"):
+		r.Undecided("LUMA", key, at, "expression outside the arithmetic grammar: "+fa+" / "+fb)
+	case fa != fb:
+		r.Bad("LUMA", key, at, "the two helpers compute different expressions: "+fa+" vs "+fb)
+	default:
+		r.OK("LUMA", key, at, "both are the straight-line expression "+fa)
 	}
 }
